@@ -806,8 +806,7 @@ Proof.
   { eapply Kc_shift; [exact HK|]. intros sk g res. cbv beta. rewrite <- app_assoc. tauto. }
   destruct (d_tmpInSize (l_s l) + k <? tg) eqn:E.
   - apply Z.ltb_lt in E. apply stepr_stop_stage with (x := piece).
-    + unfold bcsize, FD_BFSize, FD_BHSize.
-      match goal with |- context [if ?c then _ else _] => destruct c end; lia.
+    + unfold FD_BHSize. lia.
     + ss. unfold piece. rewrite ztake_zdrop_app. reflexivity.
     + reflexivity.
     + exact Hbp.
